@@ -9,6 +9,7 @@ import (
 	"go/token"
 	"os"
 	"path/filepath"
+	"regexp"
 	"sort"
 	"strings"
 
@@ -25,10 +26,10 @@ type Obligation struct {
 }
 
 type Control struct {
-	Name    string `json:"name"`
-	Mutates string `json:"mutates"`
-	Expect  string `json:"expect_rule"`
-	Result  string `json:"result"` // fired | NOT-FIRED | skipped(<why>)
+	Name    string   `json:"name"`
+	Mutates string   `json:"mutates"`
+	Expect  string   `json:"expect_rule"`
+	Result  string   `json:"result"` // fired | NOT-FIRED | skipped(<why>)
 	Keys    []string `json:"violating_keys,omitempty"`
 }
 
@@ -44,8 +45,8 @@ type Report struct {
 
 // Ctx is what a property's rules get.
 type Ctx struct {
-	P   *load.Program
-	Rep *Report
+	P    *load.Program
+	Rep  *Report
 	seen map[string]int
 }
 
@@ -53,7 +54,12 @@ func NewCtx(p *load.Program, prop string) *Ctx {
 	return &Ctx{P: p, Rep: &Report{Property: prop, Functions: map[string]bool{}}, seen: map[string]int{}}
 }
 
+var posInKey = regexp.MustCompile(`@[0-9]+`)
+
 func (c *Ctx) add(rule, key string, pos token.Pos, status, detail string, nontrivial bool) {
+	// keys identify constructs, never positions: drop the position suffix that
+	// terms of local cells carry for uniqueness
+	key = posInKey.ReplaceAllString(key, "")
 	full := rule + "/" + key
 	// Make keys unique but stable: second occurrence of the same key gets #2.
 	c.seen[full]++
@@ -90,10 +96,10 @@ func (c *Ctx) Check(ok bool, rule, key string, pos token.Pos, okDetail, failDeta
 	return ok
 }
 
-func (c *Ctx) Analysed(fn string)        { c.Rep.Functions[fn] = true }
-func (c *Ctx) Assume(s string)           { c.Rep.Assumptions = append(c.Rep.Assumptions, s) }
-func (c *Ctx) Note(f string, a ...any)   { c.Rep.Notes = append(c.Rep.Notes, fmt.Sprintf(f, a...)) }
-func (c *Ctx) Explain(s string)          { c.Rep.Explanation = s }
+func (c *Ctx) Analysed(fn string)      { c.Rep.Functions[fn] = true }
+func (c *Ctx) Assume(s string)         { c.Rep.Assumptions = append(c.Rep.Assumptions, s) }
+func (c *Ctx) Note(f string, a ...any) { c.Rep.Notes = append(c.Rep.Notes, fmt.Sprintf(f, a...)) }
+func (c *Ctx) Explain(s string)        { c.Rep.Explanation = s }
 
 func (r *Report) Violations() []Obligation {
 	var out []Obligation
@@ -200,19 +206,19 @@ func (r *Report) WriteEvidence(dir, tier string, seed int, wall float64, nviol i
 	}
 	sort.Strings(fns)
 	cov := map[string]any{
-		"explanation":         r.Explanation,
-		"obligations":         len(r.Obls),
-		"discharged":          discharged,
-		"evaluations":         len(r.Obls),
-		"distinct_nontrivial": len(nontriv),
-		"rule":                "one obligation per (rule instance, construct) found in the current tree; distinct = distinct obligation keys; non-trivial = the rule had a guard, path, call site or table row to examine (not vacuous)",
-		"samples":             samples,
+		"explanation":          r.Explanation,
+		"obligations":          len(r.Obls),
+		"discharged":           discharged,
+		"evaluations":          len(r.Obls),
+		"distinct_nontrivial":  len(nontriv),
+		"rule":                 "one obligation per (rule instance, construct) found in the current tree; distinct = distinct obligation keys; non-trivial = the rule had a guard, path, call site or table row to examine (not vacuous)",
+		"samples":              samples,
 		"obligations_per_rule": perRule,
-		"functions_analysed":  fns,
-		"checker_cmd":         "/verif/run.sh " + r.Property + " " + tier,
-		"trusted_base":        []string{"go/types, go/ssa and VTA call graph from golang.org/x/tools v0.29.0", "reference tables frozen in the checker (DESIGN.md appendix A)"},
-		"notes":               r.Notes,
-		"positive_controls":   r.Controls,
+		"functions_analysed":   fns,
+		"checker_cmd":          "/verif/run.sh " + r.Property + " " + tier,
+		"trusted_base":         []string{"go/types, go/ssa and VTA call graph from golang.org/x/tools v0.29.0", "reference tables frozen in the checker (DESIGN.md appendix A)"},
+		"notes":                r.Notes,
+		"positive_controls":    r.Controls,
 	}
 	for k, v := range extra {
 		cov[k] = v
